@@ -9,14 +9,62 @@ import (
 // Rules on the two mirror passes mainToShadow / shadowToMain (C11-R4/R6/R7, C20-R6, C03, C10).
 
 // mirrorIter finds the DBI name element of an iteration path.
-func mirrorElem(p *Path) (elem string, private, found bool) {
+func mirrorElem(c *Check, p *Path) (elem string, private, found bool) {
 	for _, cd := range p.Conds() {
 		a := cd.Atom.A
 		if cd.Atom.Kind == "bool" && strings.HasPrefix(a, "strings.HasPrefix(lmdbenv.ReadDBINames@") && strings.HasSuffix(a, ", const:\"_sync\")") {
 			return strings.TrimSuffix(strings.TrimPrefix(a, "strings.HasPrefix("), ", const:\"_sync\")"), cd.Truth, true
 		}
 	}
+	// the names were filtered before the loop: lo.Filter(ReadDBINames, pred) with
+	// pred(name) ⇔ name does not have the private prefix (library contract: the
+	// elements for which pred holds, in order). The iteration's element is then
+	// an application DBI.
+	for _, fl := range callsOf(p, "github.com/samber/lo.Filter") {
+		if len(fl.Args) != 2 || !strings.HasPrefix(fl.Args[0], "lmdbenv.ReadDBINames@") || !strings.HasSuffix(fl.Args[0], "#0") {
+			continue
+		}
+		if !predIsNotPrivate(c, fl.Args[1]) {
+			continue
+		}
+		for _, cd := range p.Conds() {
+			a := cd.Atom
+			if a.Kind == "cmp" && a.B == "len("+fl.Res+")" && strings.HasPrefix(a.A, "(loop:") && p.State.RelOf(a.Dom, a.A, a.B) == LT {
+				return fl.Res + "[" + a.A + "]", false, true
+			}
+		}
+	}
 	return "", false, false
+}
+
+// predIsNotPrivate: the function value fv (as rendered in a call argument)
+// returns true exactly for names without the private "_sync" prefix.
+func predIsNotPrivate(c *Check, fv string) bool {
+	pred := c.P.Func(strings.TrimPrefix(strings.TrimPrefix(fv, "closure:"), "func:"))
+	if pred == nil || len(pred.Params) == 0 {
+		return false
+	}
+	test := "strings.HasPrefix(param:" + pred.Params[0].Name() + ", const:\"_sync\")"
+	w := Walk(c.P, pred, WalkConfig{})
+	if w.Err != nil || len(w.Paths) == 0 {
+		return false
+	}
+	for i := range w.Paths {
+		q := &w.Paths[i]
+		if q.End != "return" || len(q.Rets) != 1 {
+			return false
+		}
+		r := q.Rets[0]
+		priv, f := boolCond(q, test, -1)
+		switch {
+		case r == "!"+test:
+		case r == "const:true" && f && !priv:
+		case r == "const:false" && f && priv:
+		default:
+			return false
+		}
+	}
+	return true
 }
 
 func dupsortOnPath(c *Check, p *Path, flagsRes string) (ds, known bool) {
@@ -42,7 +90,7 @@ func ruleMainToShadow(c *Check, rLoop, rPair, rFlags string) {
 	nIter, nUpd, nSkip, bad, badP, badF := 0, 0, 0, 0, 0, 0
 	for i := range paths {
 		p := &paths[i]
-		elem, private, f := mirrorElem(p)
+		elem, private, f := mirrorElem(c, p)
 		if !f {
 			continue
 		}
@@ -157,7 +205,7 @@ func ruleShadowToMain(c *Check, rLoop, rPair string) {
 	nEmpty, nIterU := 0, 0
 	for i := range paths {
 		p := &paths[i]
-		elem, private, f := mirrorElem(p)
+		elem, private, f := mirrorElem(c, p)
 		if !f {
 			continue
 		}
